@@ -135,6 +135,11 @@ def full_exprs(max_leaves: int = 8, *, annotation_safe: bool = False):
             st.lists(starred, min_size=1, max_size=3).map(lambda es: ["set", es]),
             st.lists(st.tuples(st.none() | sub, sub).map(list), max_size=3).map(lambda kv: ["dict", kv]),
             st.tuples(st.sampled_from(("listcomp", "setcomp", "genexp")), sub, gens).map(list),
+            # a generator expression as the sole argument of a call is written without its own parentheses
+            # (`sum(x for x in y)`, ExprGeneratorExp.parenthesized=False); with a second argument it keeps them
+            st.tuples(sub, sub, gens, st.lists(st.tuples(st.just("k"), sub).map(list), max_size=1)).map(
+                lambda t: ["call", t[0], [["genexp", t[1], t[2]]], t[3]],
+            ),
             st.tuples(st.just("dictcomp"), sub, sub, gens).map(list),
             st.lists(st.sampled_from(("txt ", "it's", "{", "")) | fmt, min_size=1, max_size=3).map(lambda ps: ["joined", ps]),
             st.tuples(st.just("subscript"), sub, index).map(list),
@@ -184,6 +189,9 @@ def safe_values(max_leaves: int = 5):
             st.tuples(st.just("call"), st.just(["name", "dict"]), st.just([]), st.lists(st.tuples(st.sampled_from(("k", "a")), sub).map(list), min_size=1, max_size=2, unique_by=lambda kv: kv[0])).map(list),
             st.lists(st.sampled_from(("txt ", "it's")) | st.tuples(st.just("fmt"), lits, st.sampled_from((-1, 115, 114)), st.none()).map(list), min_size=1, max_size=2).map(lambda ps: ["joined", ps]),
             st.tuples(st.just("listcomp"), st.just(["name", "i"]), st.just([[["name", "i"], ["call", ["name", "range"], [["const", 2]], []], [], False]])).map(list),
+            st.sampled_from(("list", "sorted", "tuple")).map(
+                lambda f: ["call", ["name", f], [["genexp", ["name", "i"], [[["name", "i"], ["call", ["name", "range"], [["const", 2]], []], [], False]]]], []],
+            ),
         )
 
     return st.recursive(lits | lits | types, extend, max_leaves=max_leaves)
